@@ -202,6 +202,9 @@ func coqPred(p *Pred) string {
 	switch p.Op {
 	case "const":
 		return "(PConst " + CoqBool(p.B) + ")"
+	case "ctx_k1_eq":
+		// a predicate over the call's context values: for the judged call it is the constant B (resolved by the generator)
+		return "(PConst " + CoqBool(p.B) + ")"
 	case "strlen_ge":
 		return "(PStrLenGe " + CoqZ(p.N) + ")"
 	case "str_eq":
